@@ -7,4 +7,5 @@ for c in "$@"; do
   e=$(date +%s)
   echo "rc=$rc t=$((e-s))s $(tail -1 /tmp/thorough.$c.log | cut -c1-160)"
   grep -A1 "^VIOLATION" /tmp/thorough.$c.log | grep -v "^--" | head -6 | cut -c1-300
+  mkdir -p /tmp/thorough-replays; cp replays/$c-thorough-*.json /tmp/thorough-replays/ 2>/dev/null
 done
